@@ -62,26 +62,30 @@ func statesOf(dump string) taskStates {
 		}
 		state := hdr[i+1 : j]
 		var funcs []string
+		creator := ""
 		for _, l := range lines[1:] {
-			if strings.HasPrefix(l, "\t") || strings.HasPrefix(l, "created by ") {
+			if strings.HasPrefix(l, "created by ") {
+				creator = l
+				continue
+			}
+			if strings.HasPrefix(l, "\t") {
 				continue
 			}
 			funcs = append(funcs, l)
 		}
-		isTask, isHelper := false, false
-		for _, f := range funcs {
-			if strings.Contains(f, "blockchain.(*Push).runTask.func1(") {
-				isTask = true
-			}
-			if strings.Contains(f, "blockchain.trigeRun.func1(") {
-				isHelper = true
-			}
-		}
+		// identified by their creator: a goroutine that was spawned but has not run yet shows
+		// only its entry wrapper, not runTask.func1
+		isTask := strings.HasPrefix(creator, "created by github.com/33cn/chain33/blockchain.(*Push).runTask in ")
+		isHelper := strings.HasPrefix(creator, "created by github.com/33cn/chain33/blockchain.trigeRun in ")
 		if isHelper && !isTask {
 			ts.helpers++
 			continue
 		}
-		if !isTask || len(funcs) == 0 {
+		if !isTask {
+			continue
+		}
+		if len(funcs) == 0 {
+			ts.busy++
 			continue
 		}
 		has := func(sub string) bool {
